@@ -928,9 +928,9 @@ class Evaluator:
         if op == "-":
             if isinstance(v, int) and not isinstance(v, bool):
                 return -v
-            if is_const(v):
+            if is_const(v) and v[1] != 0:
                 return ("c", -v[1])
-            return ("neg", v)
+            return ("neg", v)  # -0.0 keeps its sign
         if op == "+":
             return v
         if op == "!":
